@@ -8,6 +8,7 @@ the client still holds, and what the generated implementation saw (``prog_runtim
 from __future__ import annotations
 
 import contextlib
+import hashlib
 import json
 import os
 import sys
@@ -146,6 +147,18 @@ def open_link(protocol: type, impl: Any, seg_size: int | None, mode: str = "stat
 _REV = {str(t): n for n, t in {**RT.ARROW_TYPES, **RT.EXTRA_ARROW_TYPES}.items()}
 
 
+def fast_norm(data: Any) -> Any:
+    """Canonical, cheap form of a column dict / value: its repr when short, else length + SHA-1 of the repr.
+
+    ``repr`` separates 1 / 1.0 / -0.0 / b"x" / "x" exactly like ``transports.norm_value`` does; NaN is never generated.
+    Strings pass through ``norm_value`` unchanged, so ``transports.compare_to_model`` can be used on pre-normalised data.
+    """
+    r = repr(data)
+    if len(r) <= 300:
+        return r
+    return f"<{len(r)} chars sha1={hashlib.sha1(r.encode('utf-8', 'surrogatepass')).hexdigest()} head={r[:80]}>"
+
+
 def norm_batch(ab: Any) -> dict[str, Any]:
     b: pa.RecordBatch = ab.batch
     meta: dict[str, str] = {}
@@ -158,7 +171,7 @@ def norm_batch(ab: Any) -> dict[str, Any]:
     return {
         "cols": [[f.name, _REV.get(str(f.type), str(f.type))] for f in b.schema],
         "n": b.num_rows,
-        "data": transports.norm_value(b.to_pydict()),
+        "data": fast_norm(b.to_pydict()),
         "meta": meta,
     }
 
@@ -226,8 +239,8 @@ class Holder:
             self.problems.append((f"held_batch_unreadable/{h['where']}", f"{when}: {type(e).__name__}: {e}"))
             return
         if not same:
-            got = transports.norm_value(b.to_pydict())
-            want = transports.norm_value(h["copy"].to_pydict())
+            got = fast_norm(b.to_pydict())
+            want = fast_norm(h["copy"].to_pydict())
             self.problems.append(
                 (
                     f"held_batch_changed/{h['where']}/{'shm' if h['shm'] else 'inline'}",
@@ -293,8 +306,7 @@ def raw_unary(link: Link, protocol: type, name: str, args: dict[str, Any]) -> di
         if data is None:
             rb, _rcm, release = resolve_shm_batch(b, cm, seg)
             res["response_via_shm"] = release is not None
-            if info.has_return:
-                res["value"] = transports.norm_value(rb.column("result")[0].as_py())
+            res["value"] = fast_norm(rb.column("result")[0].as_py() if info.has_return else None)
             del rb
             if release is not None:
                 release()
@@ -320,13 +332,13 @@ def run_history(
     shm = link.seg is not None
     obs_list: list[dict[str, Any]] = []
     problems: list[tuple[str, str]] = []
-    facts = {"barriers": 0, "input_via_shm": 0, "raw_req_via_shm": 0, "raw_resp_via_shm": 0, "fallback_inline_big": 0}
+    facts = {"leaked": 0, "barriers": 0, "input_via_shm": 0, "raw_req_via_shm": 0, "raw_resp_via_shm": 0, "fallback_inline_big": 0}
 
     def settle(tag: str, what: str) -> None:
         """After a completed call: allocations == regions of batches the client still holds."""
         if not shm:
             return
-        want = holder.expected_allocs
+        want = holder.expected_allocs + facts["leaked"]
         got = link.allocs()
         if got != want:
             # the server may still be finishing the call (e.g. draining a rejected stream's input): synchronise
@@ -335,9 +347,22 @@ def run_history(
             link.barrier()
             got = link.allocs()
         if got > want:
-            problems.append((f"leak/{tag}", f"{what}: {got} regions allocated, client holds {want} unreleased shm batches"))
+            problems.append(
+                (
+                    f"leak/{tag}",
+                    f"{what}: {got} regions allocated; client holds {holder.expected_allocs} unreleased shm batches"
+                    f" (+{facts['leaked']} regions already reported as leaked earlier in this history)",
+                )
+            )
         elif got < want:
-            problems.append((f"region_freed_while_held/{tag}", f"{what}: {got} regions allocated but client holds {want} unreleased shm batches"))
+            problems.append(
+                (
+                    f"region_freed_while_held/{tag}",
+                    f"{what}: {got} regions allocated but client holds {holder.expected_allocs} unreleased shm batches"
+                    f" (+{facts['leaked']} leaked earlier)",
+                )
+            )
+        facts["leaked"] += got - want  # judge later calls relative to what is already known
 
     for ci, call in enumerate(spec["calls"]):
         m = spec["methods"][call["mid"]]
@@ -355,7 +380,7 @@ def run_history(
                     facts["raw_req_via_shm"] += r["request_via_shm"]
                     facts["raw_resp_via_shm"] += r["response_via_shm"]
                 else:
-                    obs["value"] = transports.norm_value(getattr(link.proxy, m["name"])(**call["args"]))
+                    obs["value"] = fast_norm(getattr(link.proxy, m["name"])(**call["args"]))
             elif kind == "producer":
                 session = getattr(link.proxy, m["name"])(**call["args"])
                 obs["header"] = transports.header_dict(getattr(session, "header", None))
@@ -370,11 +395,12 @@ def run_history(
                         obs["batches"].append(norm_batch(ab))
                         holder.receive(ab, "producer")
                         del ab
-                        if shm and link.allocs() != holder.expected_allocs:
+                        if shm and link.allocs() - facts["leaked"] != holder.expected_allocs:
                             problems.append(
                                 (
                                     "midstream_allocs/producer",
-                                    f"call#{ci} after batch {len(obs['batches'])}: {link.allocs()} regions, client holds {holder.expected_allocs}",
+                                    f"call#{ci} after batch {len(obs['batches'])}: {link.allocs()} regions (of which {facts['leaked']} "
+                                    f"reported leaked earlier), client holds {holder.expected_allocs}",
                                 )
                             )
                         holder.apply_policy()
@@ -397,7 +423,7 @@ def run_history(
                         holder.receive(ab, "exchange")
                         del ab
                         if shm:
-                            extra = link.allocs() - holder.expected_allocs
+                            extra = link.allocs() - facts["leaked"] - holder.expected_allocs
                             if extra == 1:
                                 facts["input_via_shm"] += 1  # the server still holds the input it just processed
                             elif extra != 0:
@@ -422,7 +448,8 @@ def run_history(
             outcome = "init_error" if init_failed else "error"
         obs["logs"] = [transports.norm_log(x) for x in link.logs[n0:]]
         obs_list.append(obs)
-        settle(f"{kind}/end={end}/{outcome}" + ("/raw" if obs["raw"] else ""), f"after call#{ci} ({kind} {m['name']}, end={end}, {outcome})")
+        tag = f"{kind}/{outcome}" + ("" if outcome == "init_error" else f"/end={end}") + ("/raw" if obs["raw"] else "")
+        settle(tag, f"after call#{ci} ({kind} {m['name']}, end={end}, {outcome})")
         holder.check_stable(f"after call#{ci}")
     # end of history: release everything still held; the segment must be empty
     holder.check_stable("end of history")
